@@ -217,6 +217,19 @@ static void workload(struct tctx* c) {
           c->shared_calls++;
         }
       }
+      if (vh_below(&r, 6) == 0) {
+        /* short private texts that matter to character conversion: a sequence cut short at the end, control characters, a lone lead byte */
+        static const char* const probes[] = {"ab\xe2\x82", "line1\nline2\x01", "\xf0\x9f", "tab\there\x7f", "\xc3", "\xe2\x82\xac ok"};
+        cbor_item_t* pt = cbor_build_string(probes[vh_below(&r, 6)]);
+        if (pt) {
+          { int saved_errno = errno; fesetround(FE_TONEAREST); errno = saved_errno; }
+          STAMP(F_DESCRIBE, cbor_describe(pt, df));
+          fflush(df);
+          dg = vh_hash_mix(dg, vh_hash(dtext, dlen));
+          rewind(df);
+          cbor_decref(&pt);
+        }
+      }
       vb_reset(&dump);
       STAMP(F_WALK, walk_dump_item(it, &dump, WD_REFCOUNTS));
       dg = vh_hash_mix(dg, vh_hash(dump.p, dump.n));
@@ -386,6 +399,15 @@ static void thr_case(int nthreads, int nops, uint64_t seed, bool tsan) {
   pthread_barrier_init(&bar, NULL, (unsigned)nthreads);
   memset(cs, 0, sizeof cs);
   static char ps0[6000], ps1[6000];
+  /* the client's process runs in a UTF-8 locale for every other run (set once here, by the client, before any thread
+   * starts): whatever the library asks the C library's multibyte / wide-character functions then has shared
+   * conversion state behind it, which the "C" locale never has */
+  {
+    const char* want = (seed & 1) ? "C.UTF-8" : "C";
+    if (!setlocale(LC_ALL, want)) { if (seed & 1) { if (!setlocale(LC_ALL, "en_US.UTF-8")) { setlocale(LC_ALL, "C"); VH_COUNT("runs_without_a_utf8_locale_available", 1); } } }
+    const char* now = setlocale(LC_CTYPE, NULL);
+    if (now && strstr(now, "UTF-8")) VH_COUNT("runs_in_a_utf8_locale", 1);
+  }
   uint64_t psh0 = process_state(ps0, sizeof ps0);
   FILE* shared = tmpfile();
   if (!shared) vh_die("tmpfile failed");
